@@ -10,7 +10,7 @@ use crate::{
         hash::{HashAlgorithm, WriteHasher},
         public_key::PublicKeyAlgorithm,
     },
-    errors::{bail, ensure, unimplemented_err, unsupported_err, Result},
+    errors::{bail, ensure, ensure_eq, unimplemented_err, unsupported_err, Result},
     packet::{
         types::serialize_for_hashing, Signature, SignatureType, SignatureVersion, Subpacket,
         SubpacketData, SubpacketType,
@@ -498,6 +498,19 @@ impl SignatureConfig {
                 Ok(0)
             }
             SignatureVersion::V4 | SignatureVersion::V6 => {
+                // The salt size MUST match the value defined for the hash algorithm.
+                //
+                // (See https://www.rfc-editor.org/rfc/rfc9580.html#section-5.2.3-2.10.2.1.1)
+                if let SignatureVersionSpecific::V6 { salt } = &self.version_specific {
+                    ensure_eq!(
+                        self.hash_alg.salt_len(),
+                        Some(salt.len()),
+                        "Illegal salt length {} for a V6 Signature using {:?}",
+                        salt.len(),
+                        self.hash_alg,
+                    );
+                }
+
                 // TODO: reduce duplication with serialization code
 
                 let mut res = vec![
